@@ -198,6 +198,91 @@ func c15ResultCheck(c c15Result) vfResult {
 	return r
 }
 
+
+// ---- extended: names registered through Extend resolve as well, whatever Lookups came before
+
+type c15Ext struct {
+	Pre  []string `json:"lookups_before"`
+	Exts []vfExt  `json:"exts"`
+	Mid  []string `json:"lookups_between"` // one Lookup after each Extend
+}
+
+func c15ExtCheck(c c15Ext) vfResult {
+	var r vfResult
+	vfTreeSnapshot()
+	vfTreeRestore()
+	defer vfTreeRestore()
+	for _, n := range c.Pre {
+		_ = Lookup(n)
+	}
+	shadow := vfShadowFrom(root, nil)
+	for i, e := range c.Exts {
+		if e.Parent != "" && shadow.lookup(e.Parent) == nil {
+			return vfResult{Skip: "extend-parent-unknown"}
+		}
+		if err := e.apply(); err != nil {
+			r.Err = fmt.Errorf("extension %d: %v", i, err)
+			return r
+		}
+		_ = shadow.extend(e)
+		if i < len(c.Mid) {
+			_ = Lookup(c.Mid[i])
+		}
+	}
+	check := func(name string) error {
+		want := shadow.lookup(name)
+		l := Lookup(name)
+		if l == nil {
+			return fmt.Errorf("Lookup(%q) is nil after registering %d extension(s) (lookups before: %q)", name, len(c.Exts), c.Pre)
+		}
+		if !l.Is(name) {
+			return fmt.Errorf("Lookup(%q) = %s which is not %q", name, l.String(), name)
+		}
+		if want != nil && (l.String() != want.mime || l.Extension() != want.ext) {
+			return fmt.Errorf("Lookup(%q) = %s %s, the newest registration is %s %s", name, l.String(), l.Extension(), want.mime, want.ext)
+		}
+		return nil
+	}
+	for _, e := range c.Exts {
+		for _, n := range append([]string{e.Mime}, e.Aliases...) {
+			if err := check(n); err != nil {
+				r.Err = err
+				return r
+			}
+			if !Lookup(n).Is("  " + strings.ToUpper(n) + " ; q=1") {
+				r.Err = fmt.Errorf("Lookup(%q).Is(decorated %q) is false", n, n)
+				return r
+			}
+		}
+	}
+	for _, n := range c15Names {
+		if err := check(n); err != nil {
+			r.Err = err
+			return r
+		}
+	}
+	r.Nontrivial = len(c.Pre) > 0 && len(c.Exts) > 0
+	for _, e := range c.Exts {
+		if len(e.Aliases) > 0 {
+			r.Labels = append(r.Labels, "extension-with-aliases")
+			break
+		}
+	}
+	r.Hash = vfHash([]byte(fmt.Sprint(c)))
+	return r
+}
+
+func c15ExtGen(t *rapid.T) c15Ext {
+	c15Init()
+	var c c15Ext
+	c.Pre = rapid.SliceOfN(rapid.SampledFrom(append([]string{"does/not-exist", "application/x-verif-0", "application/x-verif-alias-0-0"}, c15Names[:40]...)), 0, 3).Draw(t, "pre")
+	for i, n := 0, rapid.IntRange(1, 4).Draw(t, "next"); i < n; i++ {
+		c.Exts = append(c.Exts, vfGenExt(t, i, c.Exts))
+		c.Mid = append(c.Mid, rapid.SampledFrom([]string{"text/plain", "application/x-verif-0", "application/x-verif-alias-1-0", "nope/none"}).Draw(t, "mid"))
+	}
+	return c
+}
+
 func TestVerif_C15(t *testing.T) {
 	defer vfStats.dump()
 	vfStats.Property = "C15"
@@ -225,6 +310,12 @@ func TestVerif_C15(t *testing.T) {
 	}
 	if vfOnlySub("dec") {
 		vfRun(t, vfSub[c15Case]{Prop: "C15", Name: "dec", Checks: vfN(200000, 8000000), Gen: c15Gen, Check: c15Check})
+	}
+	if t.Failed() {
+		return
+	}
+	if vfOnlySub("extended") {
+		vfRun(t, vfSub[c15Ext]{Prop: "C15", Name: "extended", Checks: vfN(20000, 1000000), Gen: c15ExtGen, Check: c15ExtCheck})
 	}
 	if t.Failed() {
 		return
